@@ -797,6 +797,8 @@ class Ev:
         """-> list of (state, return value)"""
         if 'indirect' in c:
             f = self.operand(fr, c['indirect'], st)
+            if f[0] in ('fn', 'closure'):
+                return self.apply_closure(f, args, st, fr, site)
             return [(st, ('opaque', 'indirect call'))]
         if 'ctor' in c:
             names = c.get('ctor_fields') or [str(i) for i in range(len(args))]
@@ -940,7 +942,17 @@ class Ev:
             if ctor is not None:
                 adt, variant, fields = ctor
                 return [(st, T.mk_adt(adt, variant, zip(fields, args)))]
+            last = p.split('::')[-1]
+            if last in ('Ok', 'Err') and ('Result' in p or 'prelude' in p):
+                return [(st, T.mk_adt('std::result::Result', last, [('0', args[0])]))]
+            if last == 'Some' and ('Option' in p or 'prelude' in p):
+                return [(st, T.mk_adt('std::option::Option', 'Some', [('0', args[0])]))]
             if p in self.facts.fns:
                 return self.eval_fn(p, list(args), st, {}, fr.depth + 1)
+            ax = self.axioms.lookup(tys.strip_lifetimes(p), {'c': {'path': p}})
+            if ax is not None:
+                info = {'c': {'path': p, 'name': last}, 'targs': [tys.parse(a) for a in clo[2]], 'rargs': [tys.parse(a) for a in clo[2]],
+                        'site': site or {'span': '?', 'fn': fr.fn['path']}, 'fr': fr}
+                return ax(self, st, info, list(args))
             return [(st, ('call', 'fn:' + p, tuple(args)))]
         return [(st, ('opaque', 'call of non-function value'))]
